@@ -4,7 +4,7 @@
 use std::mem::MaybeUninit;
 
 use compio_buf::{IoBuf, IoBufMut, SetLen};
-use compio_io::ancillary::{AncillaryBuf, AncillaryBuilder, AncillaryData, AncillaryIter, CodecError};
+use compio_io::ancillary::{AncillaryBuf, AncillaryBuilder, AncillaryIter, CodecError};
 use serde::{Deserialize, Serialize};
 use vcore::{mono_range, Outcome};
 
@@ -71,6 +71,9 @@ pub struct CmsgCase {
     /// stale content of the buffer before `AncillaryBuilder::new` (which documents clearing it)
     pub prefill: u8,
     pub msgs: Vec<Msg>,
+    /// run exactly as written even if a known finding would exclude this shape
+    #[serde(default)]
+    pub strict: bool,
 }
 
 const HDR: usize = 16;
@@ -250,7 +253,8 @@ fn drive_builder<B: IoBufMut + ?Sized>(buf: &mut B, msgs: &[Msg]) -> Pushed {
     Pushed { results }
 }
 
-pub fn run_cmsg(case: &CmsgCase) -> Outcome {
+pub fn run_cmsg(case: &CmsgCase, excl: crate::frames::Excl) -> Outcome {
+    let probe_larger = case.strict || !excl.cmsg_larger;
     if !(cfg!(target_os = "linux") && cfg!(target_pointer_width = "64")) {
         return Outcome::inconclusive("layout model is for 64-bit Linux");
     }
@@ -371,10 +375,12 @@ pub fn run_cmsg(case: &CmsgCase) -> Outcome {
                 Ok(b) => return Outcome::violation("C13/cmsg/iter-data", format!("message {i}: decoded {b:?}, pushed {payload:?}")),
                 Err(e) => return Outcome::violation("C13/cmsg/iter-decode-error", format!("message {i}: {e}")),
             }
-            if let Some((asked, ok)) = decode_larger(&r, payload.len()) {
+            if !probe_larger {
+                labels.push("excluded-known:decode-larger-probe".into());
+            } else if let Some((asked, ok)) = decode_larger(&r, payload.len()) {
                 if ok {
                     return Outcome::violation(
-                        "C13/cmsg/decode-larger-than-payload",
+                        crate::frames::SIG_CMSG_LARGER,
                         format!(
                             "message {i} carries {} payload bytes; data::<[u8; {asked}]>() returned Ok, i.e. it read {} bytes beyond the payload (past the end of the message{})",
                             payload.len(),
